@@ -72,15 +72,29 @@ def same(fmt, a, b):
     return a == b
 
 
-def make_class(name, fmts, seed):
+def make_class(name, fmts, seed, base_fmts=None):
+    """device class; with `base_fmts` it derives from a base class that declares the
+    same variable names with those (other) formats, i.e. the subclass overrides them"""
     from ebpfcat.ebpfcat import Device, DeviceVar
+    bases = (Device,)
+    if base_fmts is not None:
+        bns = {}
+        for k, f in enumerate(base_fmts):
+            if f is not None:
+                bns[f"pw{k}"] = DeviceVar(f, write=True)
+                bns[f"cw{k}"] = DeviceVar(f)
+        base = type(name + "Base", (Device,), bns)
+        base.__module__ = __name__
+        base.__qualname__ = name + "Base"
+        setattr(_MOD, name + "Base", base)
+        bases = (base,)
     ns = {"nvars": len(fmts), "fmts": tuple(fmts), "seed": seed, "update": gen_update,
           "cmd": DeviceVar("I", write=True), "ack": DeviceVar("I")}
     for k, f in enumerate(fmts):
         ns[f"pw{k}"] = DeviceVar(f, write=True)
         ns[f"echo{k}"] = DeviceVar(f)
         ns[f"cw{k}"] = DeviceVar(f)
-    cls = type(name, (Device,), ns)
+    cls = type(name, bases, ns)
     cls.__module__ = __name__
     cls.__qualname__ = name
     setattr(_MOD, name, cls)          # so that pickle finds it by reference
@@ -100,7 +114,12 @@ def run(tape, scenario):
     classes = []
     for c in range(ncls):
         fmts = [tape.pick("c29/fmt", FMTS) for _ in range(1 + tape.draw("c29/nvars", 4))]
-        classes.append(make_class(f"GenDev{c}", fmts, tape.draw("c29/seed", 1000)))
+        base_fmts = None
+        if tape.chance("c29/inherit", 40):
+            # a base class declaring some of the names with another (often narrower) format
+            base_fmts = [tape.pick("c29/basefmt", ["B", "H", "I", "b", "h", "i"])
+                         if tape.chance("c29/override-this", 60) else None for _ in fmts]
+        classes.append(make_class(f"GenDev{c}", fmts, tape.draw("c29/seed", 1000), base_fmts))
     ninst = 1 + tape.draw("c29/ninst", 4)
     which = [tape.draw("c29/cls", ncls) for _ in range(ninst)]
     rounds = 3 + tape.draw("c29/rounds", 8)
@@ -212,8 +231,9 @@ def run(tape, scenario):
     if aborted:
         viol("did-not-finish", aborted)
     for c in classes:
-        if hasattr(_MOD, c.__name__):
-            delattr(_MOD, c.__name__)
+        for nm in (c.__name__, c.__name__ + "Base"):
+            if hasattr(_MOD, nm):
+                delattr(_MOD, nm)
     return {
         "violations": violations, "stats": dict(world.counters), "digest": log.hexdigest(),
         "sim_time": world.now, "schedule": log.hexdigest(), "nontrivial": done_rounds[0] >= 2,
